@@ -4,6 +4,7 @@ import (
 	"fmt"
 	"go/types"
 	"sort"
+	"strings"
 
 	"golang.org/x/tools/go/ssa"
 )
@@ -91,6 +92,13 @@ func (fx *FnExec) epochLookup(e *Epoch, key string) Term {
 		panic("unregistered heap key " + key)
 	}
 	var v Term
+	if strings.HasPrefix(key, "GI$") {
+		// an immutable package-level variable: the same constant in every epoch
+		fx.sc.Declare("const:"+key, fmt.Sprintf("(declare-fun %s () %s)", key, srt))
+		v = Term{key, srt}
+		e.vals[key] = v
+		return v
+	}
 	if len(e.parents) == 0 {
 		v = fx.sc.Fresh(fmt.Sprintf("%s@%d", key, e.id), srt)
 	} else {
@@ -298,13 +306,33 @@ func (fx *FnExec) Merge(hint string, ins []edgeIn) *State {
 	}
 	n.hv = mergeVals("hv", hvs)
 	// defers: must agree
-	n.defers = append([]*ssa.Defer(nil), ins[0].st.defers...)
+	// defers must agree, except for deferred calls that cannot write tracked state (metrics,
+	// timers): whether such a call runs or not is unobservable, so it is kept unconditionally
+	longest := ins[0].st.defers
 	for _, in := range ins[1:] {
-		if len(in.st.defers) != len(n.defers) {
-			unsupported("conditional defer (different defer stacks at a join)")
+		if len(in.st.defers) > len(longest) {
+			longest = in.st.defers
 		}
-		for i := range n.defers {
-			if n.defers[i] != in.st.defers[i] {
+	}
+	n.defers = append([]*ssa.Defer(nil), longest...)
+	for _, in := range ins {
+		have := map[*ssa.Defer]bool{}
+		for _, d := range in.st.defers {
+			have[d] = true
+		}
+		for _, d := range longest {
+			if !have[d] && !fx.deferIsEffectFree(d) {
+				unsupported("conditional defer (different defer stacks at a join)")
+			}
+		}
+		for _, d := range in.st.defers {
+			found := false
+			for _, l := range longest {
+				if l == d {
+					found = true
+				}
+			}
+			if !found && !fx.deferIsEffectFree(d) {
 				unsupported("conditional defer (different defer stacks at a join)")
 			}
 		}
